@@ -27,9 +27,11 @@ SLACK = Fraction(1, 2 ** 22)
 def offsets(tier, seed):
 	base = [0, 2 ** 16 - 3, 2 ** 64 - 8]
 	extra = [2 ** 32 - 3, 2 ** 15 - 2, 2 ** 31 - 4, 2 ** 63 - 3, 1000]
-	out = base[:2] + [base[2]] if tier == 'thorough' else [0, [2 ** 16 - 3, 2 ** 64 - 8, 2 ** 32 - 3][seed % 3]]
-	if tier == 'thorough':
-		out += extra
+	out = base + extra            # (the quick tier used to pick one straddling offset by seed; a full run takes seconds, so all are used)
+	# universes that END at the largest value of a storage type (the all-T k-mer for k = 8, 16, 32 and the signed maxima)
+	n = 6 if tier == 'quick' else 7
+	tops = [2 ** 16 - n, 2 ** 64 - n, 2 ** 32 - n, 2 ** 15 - n, 2 ** 31 - n, 2 ** 63 - n]
+	out += tops
 	return out
 
 
